@@ -57,6 +57,8 @@ def absgt(d, tol):
 
 
 def to_term(v):
+    if isinstance(v, np.ndarray) and v.size == 1:
+        v = v.reshape(-1)[0]
     if isinstance(v, z3.ExprRef):
         return v
     if isinstance(v, symnp.SR):
